@@ -245,7 +245,8 @@ def part_check(kind, case, rec):
 # histories of value updates
 # ---------------------------------------------------------------------------------------------------------------
 def hist_strategy(kind, tier):
-    op = st.fixed_dictionaries({"op": st.sampled_from(["iadd", "isub", "imul", "idiv", "add", "sub", "mul", "div", "copy", "link", "setvalues", "getitem"]),
+    op = st.fixed_dictionaries({"op": st.sampled_from(["iadd", "isub", "imul", "idiv", "add", "sub", "mul", "div", "copy", "link", "setvalues", "getitem",
+                                                        "field-iop", "field-op", "and"]),
                                 "form": st.sampled_from(["flat", "list"]), "seed": st.integers(0, 10**6)})
     return st.fixed_dictionaries({"n": st.lists(st.integers(2, 3), min_size=3, max_size=3), "extra": st.sampled_from([0, 1]),
                                   "ops": st.lists(op, min_size=1, max_size=10 if tier == "quick" else 30)})
@@ -312,6 +313,47 @@ def hist_check(kind, case, rec):
             f.values[p, c] = x[0]
             model = model.copy()
             model[offs[fi] + f.dim * p + c] = x[0]
+        elif op in ("field-iop", "field-op"):
+            # the same operations on one field of the container, with a flat array, a (points, dim) array or another Field
+            fi = o["seed"] % len(sizes)
+            f = fc.fields[fi]
+            xf = x[offs[fi] : offs[fi + 1]]
+            which = ("add", "sub", "mul", "div")[(o["seed"] // 3) % 4]
+            kindarg = (o["seed"] // 13) % 3
+            if kindarg == 0:
+                argf = xf.copy()
+            elif kindarg == 1:
+                argf = xf.reshape(-1, f.dim).copy()
+            else:
+                argf = f.copy()
+                argf.values[...] = xf.reshape(-1, f.dim)
+            ref = {"add": model[offs[fi] : offs[fi + 1]] + xf, "sub": model[offs[fi] : offs[fi + 1]] - xf,
+                   "mul": model[offs[fi] : offs[fi + 1]] * xf, "div": model[offs[fi] : offs[fi + 1]] / xf}[which]
+            if op == "field-iop":
+                if which == "add":
+                    f += argf
+                elif which == "sub":
+                    f -= argf
+                elif which == "mul":
+                    f *= argf
+                else:
+                    f /= argf
+                rec.require("field-iop-keeps-the-container's-field-object", fc.fields[fi] is f)
+                model = model.copy()
+                model[offs[fi] : offs[fi + 1]] = ref
+            else:
+                before = f.values.copy()
+                new = {"add": f + argf, "sub": f - argf, "mul": f * argf, "div": f / argf}[which]
+                rec.require("field-binary-op-leaves-operand", np.array_equal(f.values, before))
+                rec.close("field-binary-op-result", float(np.abs(new.values.ravel() - ref).max()) if new.values.size == ref.size else float("inf"), 1e-13)
+            if kindarg == 2:
+                rec.require("field-op-leaves-the-other-field", np.array_equal(argf.values.ravel(), xf))
+        elif op == "and":
+            # field & field / container & field build a container with the fields in the given order
+            if len(sizes) >= 2:
+                c2 = fc.fields[0] & fc.fields[1]
+                rec.require("and:fields", len(c2.fields) == 2 and c2.fields[0] is fc.fields[0] and c2.fields[1] is fc.fields[1])
+                rec.close("and:values", float(np.abs(fem.math.values(c2) - model[: offs[2]]).max()), 0.0)
         elif op == "getitem":
             fi = o["seed"] % len(sizes)
             f = fc.fields[fi]
